@@ -37,10 +37,11 @@ type ForestMon struct {
 	Prop  string // property id used in violation keys
 	// leaf descriptions, for witnesses
 	CheckTreeNodes bool
+	CheckReported  bool // verify every siacoin / siafund element reported by an ApplyUpdate
 }
 
 func NewForestMon(prop string, r Reporter) *ForestMon {
-	return &ForestMon{F: &refmodel.Forest{}, R: r, Prop: prop, CheckTreeNodes: true}
+	return &ForestMon{F: &refmodel.Forest{}, R: r, Prop: prop, CheckTreeNodes: true, CheckReported: true}
 }
 
 type leafSet struct {
@@ -142,6 +143,20 @@ func (m *ForestMon) OnApply(ev chaingen.ApplyEvent) {
 	}
 	m.undos = append(m.undos, u)
 	m.CompareState(ev.Next, "after-apply", blockWitness(ev))
+	// every element the update reports - including outputs created AND spent inside the block, which no store keeps -
+	// carries the path of its leaf in the new forest
+	if m.CheckReported {
+		n := 0
+		for _, d := range ev.AU.SiacoinElementDiffs() {
+			m.CheckElement("reported-siacoin", elems.Siacoin(d.SiacoinElement), d.SiacoinElement.StateElement, d.Spent, ev.Next, "after-apply")
+			n++
+		}
+		for _, d := range ev.AU.SiafundElementDiffs() {
+			m.CheckElement("reported-siafund", elems.Siafund(d.SiafundElement), d.SiafundElement.StateElement, d.Spent, ev.Next, "after-apply")
+			n++
+		}
+		m.R.Count("reported_diff_elements_verified", n)
+	}
 	m.R.Distinct("forest-shape", oldN&0xff, len(ls.upd) > 0, (newN-oldN) > 3, nAtt > 0, bitsPattern(oldN), bitsPattern(newN))
 	if m.CheckTreeNodes {
 		seenRow0 := 0
